@@ -1,16 +1,53 @@
 """C01 Formatting preserves the meaning of the document (structural clauses)."""
 
 from ..report import Ctx
-from ..rules import render
+from ..rules import hazard, render
 
-EXPLANATION = "wip"
+EXPLANATION = (
+    "Structural necessary conditions of C01, decided over every element class the parser can instantiate (read from the "
+    "marko sources and the repository's parser set-up) and every render method: (R-DISPATCH) each element type resolves to a "
+    "render_<type> method; (R-FIELD) every semantic field of an element reaches the rendered text or the renderer state it "
+    "is rendered under (slicing with helper summaries), children are iterated in document order; (R-DECISION) truth-table "
+    "evaluation of the table-alignment chain (4 assignments -> 4 distinct constants with the colon on the right sides), "
+    "soft/hard break, ordered/bullet marker; (R-PREFIX) typestate of the container prefix: P1 a line-starting block uses the "
+    "pending prefix, loops use the continuation prefix, P2 consumes it on every path (must-pass-through, helper summaries), "
+    "P3 containers restore it after their children, P5 an empty list item emits its own marker, P6 block text ends with a "
+    "newline; (R-ENCODE) code-span delimiter sized from content, titles quote-escaped, destinations through an encoder, "
+    "cells pipe-escaped, verbatim fields touched only by content-preserving operations (forward taint); (R-BOUND) fence "
+    "length strictly above the longest fence-like run, same character scanned and emitted; (R-HAZARD) the first-word "
+    "languages of marko's paragraph-interrupting block patterns (Glushkov automata of the dependency's own constants) are "
+    "included in the language the line-start escaper rewrites, per shape class; (R-ESCAPE-SITE/ACTION) the escaper runs on "
+    "the first word of every continuation line in Markdown mode on both wrapper chains and only inserts one backslash. "
+    "Not decided: that re-parsing the output yields the same tree for arbitrary input (round trip on runtime values)."
+)
 
 
 def run(ctx: Ctx) -> None:
+    ctx.rule("R-DISPATCH", "every element type the parser can instantiate has a render method")
+    ctx.rule("R-FIELD", "every semantic field of an element reaches the output; children in document order")
+    ctx.rule("R-DECISION", "small decision tables are total and injective (alignment, break kind, marker kind)")
+    ctx.rule("R-PREFIX-P1", "line-starting blocks use the pending prefix; repeated lines use the continuation prefix")
+    ctx.rule("R-PREFIX-P2", "a leaf block consumes the pending prefix on every path to a non-empty return")
+    ctx.rule("R-PREFIX-P3", "a container restores the prefix after its children on every path")
+    ctx.rule("R-PREFIX-P5", "an empty list item emits its own marker")
+    ctx.rule("R-PREFIX-P6", "rendered blocks are newline-terminated")
+    ctx.rule("R-ENCODE-codespan", "code span delimiter is computed from the content's backtick runs")
+    ctx.rule("R-ENCODE-title", "titles are emitted with inner double quotes escaped")
+    ctx.rule("R-ENCODE-dest", "link/image destinations pass through an encoder, never the bare attribute")
+    ctx.rule("R-ENCODE-cell", "table cell text has the pipe re-escaped")
+    ctx.rule("R-ENCODE-verbatim", "only content-preserving operations between a verbatim field and the output")
+    ctx.rule("R-BOUND", "emitted fence length >= longest fence-like run + 1, same fence character")
+    ctx.rule("R-HAZARD", "first-word language of each paragraph-interrupting block start is covered by the line-start escaper")
+    ctx.rule("R-ESCAPE-SITE", "the escaper is applied to the first word of every continuation line in Markdown mode")
+    ctx.rule("R-ESCAPE-ACTION", "the escaper returns the word or the word with a single backslash inserted")
     ctx.run(render.check_dispatch)
     ctx.run(render.check_fields)
     ctx.run(render.check_decisions)
     ctx.run(render.check_prefix)
     ctx.run(render.check_encode)
     ctx.run(render.check_fence_bound)
-    ctx.run(render.check_blank_line_hygiene)
+    ctx.run(hazard.check_hazards)
+    ctx.run(hazard.check_escape_site)
+    ctx.run(hazard.check_escape_action)
+    ctx.assume("marko 2.2.4 as installed: element classes, get_type dispatch, block start patterns are read from its source text")
+    ctx.assume("regex approximations enlarge languages only (look-arounds dropped, ASCII model of \\d \\s \\w); hazards are reported per shape class")
